@@ -116,7 +116,9 @@ func cmdCheck(args []string) int {
 			engineErrs = append(engineErrs, shortFuncKey(r.Key)+": "+r.Err)
 		}
 		for _, ob := range r.Obls {
-			if ob.Kind == "cover" || hasProp(ob.Props, o.prop) {
+			// an obligation without any property attribution belongs to every property whose check reaches its function:
+			// nothing generated is ever dropped silently
+			if ob.Kind == "cover" || len(ob.Props) == 0 || hasProp(ob.Props, o.prop) {
 				all = append(all, ob)
 			}
 		}
@@ -496,13 +498,23 @@ func runCorpus(o *options) []map[string]any {
 	var out []map[string]any
 	dirs, _ := filepath.Glob(filepath.Join(o.verif, "seeded", o.prop+"-*"))
 	sort.Strings(dirs)
-	self, _ := os.Executable()
+	var patches [][2]string // name, patch file
 	for _, d := range dirs {
-		patch := filepath.Join(d, "patch.diff")
+		patches = append(patches, [2]string{filepath.Base(d), filepath.Join(d, "patch.diff")})
+	}
+	// plus the author's own deliberate mutations (engine self-test, /verif/selftest/mutations)
+	muts, _ := filepath.Glob(filepath.Join(o.verif, "selftest", "mutations", o.prop+"-m*.diff"))
+	sort.Strings(muts)
+	for _, m := range muts {
+		patches = append(patches, [2]string{"mutation " + strings.TrimSuffix(filepath.Base(m), ".diff"), m})
+	}
+	self, _ := os.Executable()
+	for _, pp := range patches {
+		patch := pp[1]
 		if _, err := os.Stat(patch); err != nil {
 			continue
 		}
-		res := map[string]any{"seed": filepath.Base(d)}
+		res := map[string]any{"seed": pp[0]}
 		tmp, err := os.MkdirTemp("", "govc-corpus-")
 		if err != nil {
 			res["error"] = err.Error()
